@@ -32,11 +32,14 @@ def check(run, prog, tier):
     run.rule("C09-A", "per-component dispatch depends on the current component (no leaked loop variables)", minimum=8)
     run.rule("C09-B", "additivity bookkeeping of add_to_data/add_to_data2/__add__", minimum=14)
     run.rule("C09-C", "component builders accumulate and register their temperature", minimum=12)
-    run.rule("C09-D", "external APIs used by the builders exist", minimum=10)
+    run.rule("C09-D", "external APIs and attributes of self used by the builders exist", minimum=10)
+    run.rule("C09-E", "builders use the energy parameters in the unit system they receive them in (unit-state "
+                      "typing of the parameter dictionaries)", minimum=10)
     rule_A(run, prog)
     rule_B(run, prog)
     rule_C(run, prog)
     rule_D(run, prog)
+    rule_E(run, prog)
 
 
 # ----------------------------------------------------------------------
@@ -307,6 +310,38 @@ def rule_C(run, prog):
              and any(isinstance(x, ast.Raise) for x in n.body) for n in ast.walk(f.node))
     run.obligation(rid, "CorrelationFunction._set_temperature_and_cutoff_time", ok, key="refuse",
                    message="inconsistent component temperatures must be refused", loc=f.loc())
+
+
+def rule_E(run, prog):
+    """Unit state of the parameter dictionaries (qv/unitflow.py): every builder must use the energy
+    entries in the unit system it receives them in."""
+    from .. import unitflow
+    rid = "C09-E"
+    for cls_q, cname in ((CF + "CorrelationFunction", "CorrelationFunction"), (SD + "SpectralDensity", "SpectralDensity")):
+        cls = prog.cls(cls_q)
+        ekeys = unitflow.energy_keys(prog, cls)
+        if not ekeys or "reorg" not in ekeys:
+            raise AnalysisError("%s.energy_params not found or without 'reorg'" % cname)
+        init, disp = unitflow.dispatch_states(prog, cls, ekeys)
+        if len(disp) < 5:
+            raise AnalysisError("%s.__init__: only %d builder calls found" % (cname, len(disp)))
+        for bname, state, call in disp:
+            f = prog.find_method(cls, bname)
+            if f is None:
+                run.obligation(rid, "%s.%s" % (cname, bname), False, key="units:dispatch",
+                               message="builder %s is called but not defined" % bname, loc=init.loc(call))
+                continue
+            if state is None:
+                raise AnalysisError("%s.__init__: cannot tell which dictionary %s receives" % (cname, norm(call)))
+            bf = unitflow.BuilderFlow(prog, f, ekeys, state)
+            problems = bf.run()
+            kinds = sorted({k for k, _, _ in problems})
+            run.obligation(rid, "%s.%s" % (cname, bname), not problems, key="units:%s" % state.lower(),
+                           message="the constructor hands %s the parameters %s; %s" % (
+                               bname, "as given by the caller (current units)" if state == "RAW" else "converted to internal units",
+                               "; ".join(m for _, m, _ in problems[:3])),
+                           loc=f.loc(problems[0][2]) if problems else f.loc(),
+                           sample={"builder": bname, "receives": state, "energy_uses": bf.uses, "problems": kinds})
 
 
 def rule_D(run, prog):
